@@ -140,6 +140,11 @@ def scenarios() -> list[tuple]:
         # arrives on each open outside socket until the deadline
         for ph in (("transfer", 0), ("first-data", 0)):
             out.append((h, "offline+chatty", ph))
+        # a host name that does not resolve: the resolver's failure is reported k loop iterations after the removal delay
+        # of the exit entry ran out (k = 0: in the very iteration in which the exit entry is closed)
+        if h <= 2:
+            for k in range(4):
+                out.append((h, f"O+dnsfail:{k}", ("transfer", 0)))
         # hosts without IPv6 (the exit's IPv6 outside socket cannot be created), torn down by the originator / abandoned
         for ini in ("O", "offline"):
             for ph in (("transfer", 0), ("first-data", 0)):
@@ -207,7 +212,7 @@ def run_one(scn: tuple, faults: dict[int, str], seed: int):  # noqa: ANN201
         if busy:
             for name in path:
                 o = ov[name]
-                if busy in ("chatty", "noipv6", "wanting"):
+                if busy in ("chatty", "noipv6", "wanting") or busy.startswith("dnsfail"):
                     continue
                 if busy == "busy":
                     o.candidates.clear()        # knows nobody it could build through ...
@@ -223,8 +228,23 @@ def run_one(scn: tuple, faults: dict[int, str], seed: int):  # noqa: ANN201
             # the very first data cell of the circuit is sent just before the teardown (a fault may let the
             # destroy overtake it, so that the exit socket is opened while its removal is already under way)
             w.send_out("O", c, ("9.9.9.9", 99), BT_PAYLOAD)
+        if busy and busy.startswith("dnsfail"):
+            from ipv8.messaging.interfaces.udp.endpoint import DomainAddress  # noqa: PLC0415
+            w.loop.resolver_gate = w.loop.create_future()
+            w.send_out("O", c, DomainAddress("no-such-host.invalid", 99), BT_PAYLOAD)
+            w.flush()
         did = _teardown(w, ini, cid)
         T = deadline(ov["O"].settings)
+        if busy and busy.startswith("dnsfail"):
+            gate = w.loop.resolver_gate
+
+            def report(k: int) -> None:
+                if k:
+                    w.loop.call_soon(report, k - 1)
+                elif not gate.done():
+                    gate.set_result(None)         # getaddrinfo goes on and raises gaierror: unknown host
+            # the destroy reaches the exit at the present virtual instant; its entry is closed remove_tunnel_delay later
+            w.loop.call_at(w.loop.time() + ov["X"].settings.remove_tunnel_delay, report, int(busy.split(":")[1]))
         if busy == "wanting":
             w.run_for(11.0)
             ov["O"].circuits_needed[h] = 2
